@@ -619,7 +619,31 @@ func checkC12(c *Ctx) {
 				"whether the forwarded message carries the response in its RegistrationResponse field depends on "+firstN(strings.Join(uniq(sortedCopy(extra)), ", "), 80)+": in that configuration the stations, which read that field, never see the phantom, port and parameters the client was told")
 		})
 		if n == 0 {
-			r.Unk("C12.11", "processC2SWrapper: store of RegistrationResponse", f.Pos(), fnName(f), "not found")
+			// the store moved into a helper of the package (the function was split into phases): it is attached there
+			found := findInstrDeep(f, func(l located) bool {
+				st, ok := l.call.(*ssa.Store)
+				if !ok || len(l.chain) == 0 {
+					return false
+				}
+				o, fld, ok := fieldOwner(st.Addr)
+				if !ok || o != "proto.C2SWrapper" || fld != "RegistrationResponse" {
+					return false
+				}
+				cst, isC := st.Val.(*ssa.Const)
+				return !(isC && cst.Value == nil)
+			}, 2)
+			if len(found) > 0 {
+				okAll := true
+				for _, l := range found {
+					if !unconditionalButRefusals(l.in, l.call) {
+						okAll = false
+					}
+				}
+				r.Check(okAll, "C12.11", "processC2SWrapper: RegistrationResponse is attached whatever the authentication mode", found[0].call.Pos(), fnName(found[0].in), "in a helper of the package, reached whatever any condition other than nil tests says",
+					"whether the forwarded message carries the response in its RegistrationResponse field depends on a condition of "+fnName(found[0].in))
+			} else {
+				r.Unk("C12.11", "processC2SWrapper: store of RegistrationResponse", f.Pos(), fnName(f), "not found")
+			}
 		}
 	}
 
@@ -1331,4 +1355,38 @@ func anyContainsHelperRange(h *ssa.Function) bool {
 		ok = false
 	}
 	return ok && n >= 2
+}
+
+// unconditionalButRefusals: in is reached whatever any condition says, except nil tests and tests whose other side only
+// refuses (returns without a message).
+func unconditionalButRefusals(f *ssa.Function, in ssa.Instruction) bool {
+	return reachGame(f, in, func(bl *ssa.BasicBlock) int {
+		iff, ok := bl.Instrs[len(bl.Instrs)-1].(*ssa.If)
+		if !ok {
+			return gameAny
+		}
+		if cnd, _ := normCond(iff.Cond); strings.Contains(cnd, "nil") {
+			return gameAny
+		}
+		if hit, _ := reachAt(f, bl, isInstr(in), nil, nil); !hit {
+			return gameAny
+		}
+		for _, sc := range bl.Succs {
+			if hit, _ := reachAt(f, sc, isInstr(in), nil, nil); hit {
+				continue
+			}
+			okRet, _ := reachAt(f, sc, func(x ssa.Instruction) bool {
+				ret, ok := x.(*ssa.Return)
+				if !ok || len(ret.Results) == 0 {
+					return ok
+				}
+				cst, isC := returnedValue(ret, 0, nil).(*ssa.Const)
+				return !(isC && cst.Value == nil)
+			}, nil, nil)
+			if !okRet {
+				return gameAny
+			}
+		}
+		return gameAll
+	})
 }
